@@ -181,12 +181,14 @@ def classify(unit, hspec, hres, workdir):
             out["inconclusive"].append("property assertion %s is unreachable (vacuous harness)" % l)
     if out.get("n_other"):
         out["inconclusive"].append("%d checks undetermined (follows from a failed unwinding assertion or solver error)" % out["n_other"])
-    for w in hspec.get("witnesses", None) or []:
-        if not any(w in d for d in out["covers_sat"]):
-            out["inconclusive"].append("required witness not satisfied: %s" % w)
-    if hspec.get("witnesses") is None:
-        for d in out["covers_unsat"]:
-            out["inconclusive"].append("vacuity witness unsatisfiable: %s" % d)
+    # (a failing assertion blocks the paths behind it, so witnesses are only demanded of clean harnesses)
+    if not out["violations"]:
+        for w in hspec.get("witnesses", None) or []:
+            if not any(w in d for d in out["covers_sat"]):
+                out["inconclusive"].append("required witness not satisfied: %s" % w)
+        if hspec.get("witnesses") is None:
+            for d in out["covers_unsat"]:
+                out["inconclusive"].append("vacuity witness unsatisfiable: %s" % d)
     hstatus = hres.get("status")
     if not checks:
         out["inconclusive"].append("no checks reported (harness status %s: timeout, out of memory or CBMC error)" % hstatus)
